@@ -69,7 +69,24 @@ def gen_case(rng, index, tier):
             comps.append(comp)
     c01.add_stale(L, rng, [arg], index, p=0.25)
     c01.add_partial_trash_dirs(L, rng)
+    hostile = False
+    if rng.random() < 0.08 and 'fallback' not in optclass:
+        # permissions that bite (capabilities dropped): the link sits in a
+        # directory the user may not write to and/or points at a read-only
+        # directory - whatever trash-put tries, the TARGET keeps its bits
+        byp = dict((nd['p'], nd) for nd in L.nodes)
+        par = os.path.dirname(arg['rel'])
+        if par in byp and byp[par].get('t') == 'd' and rng.random() < 0.7:
+            byp[par]['m'] = 0o555
+            hostile = 'ro-parent'
+        if arg.get('target') and arg['target'] in byp and \
+                byp[arg['target']].get('t') == 'd':
+            byp[arg['target']]['m'] = rng.choice([0o555, 0o500])
+            hostile = hostile or 'ro-target'
     case = L.desc()
+    if hostile:
+        case['drop_caps'] = True
+        case['hostile'] = hostile
     case['env'] = dict(case['env'], **env_extra)
     case['args'] = [arg]
     case['companions'] = comps
@@ -173,7 +190,8 @@ def run_case(case):
             obs['links_untouched'] = 1
             # a link the kernel resolves, a usable trash dir, no "no" from the
             # user: the link itself must have been trashed
-            if kernel_resolves and exp0 and not declined:
+            if kernel_resolves and exp0 and not declined and \
+                    case.get('hostile') != 'ro-parent':
                 viol('link-not-trashed-though-trashable/%s/%s' % (a['kind'], a['class']),
                      expected=exp0)
             else:
